@@ -365,7 +365,23 @@ impl fmt::Display for IterableKind {
     fn fmt(&self, f: &mut fmt::Formatter<'_>) -> fmt::Result {
         //TODO should i turn this into a self.to_primitive_set()  and then iterate and stringify?
         let s = match self {
-            IterableKind::Numbers(v) => format!("{:?}", v),
+            // the debug form of a float switches to exponent notation below 1e-5 and from 1e16
+            // (`1.25e-6`), which is not a number literal of the language: print plain decimals
+            // and keep the `.0` that tells a whole number from an integer
+            IterableKind::Numbers(v) => format!(
+                "[{}]",
+                v.iter()
+                    .map(|n| {
+                        let plain = n.to_string();
+                        if n.is_finite() && !plain.contains('.') {
+                            format!("{plain}.0")
+                        } else {
+                            plain
+                        }
+                    })
+                    .collect::<Vec<_>>()
+                    .join(", ")
+            ),
             IterableKind::Integers(v) => format!("{:?}", v),
             // elements of different kinds (e.g. rows [1, 2] and [3, 4.5]): print each element as
             // source text, the debug form of the vector is not a valid array literal
